@@ -52,8 +52,16 @@ def sh(cmd, **kw):
 
 def tree_hash():
     r = subprocess.run(["git", "-C", REPO, "ls-files", "-co", "--exclude-standard", "-z"],
-                       stdout=subprocess.PIPE, check=True)
-    files = [f for f in r.stdout.decode().split("\0") if f]
+                       stdout=subprocess.PIPE, stderr=subprocess.DEVNULL)
+    if r.returncode == 0 and os.path.exists(os.path.join(REPO, ".git")):
+        files = [f for f in r.stdout.decode().split("\0") if f]
+    else:
+        # scratch copy without git metadata (checker self-test): walk the tree
+        files = []
+        for root, dirs, fs in os.walk(REPO):
+            dirs[:] = [d for d in dirs if d not in ("target", ".git")]
+            for f in fs:
+                files.append(os.path.relpath(os.path.join(root, f), REPO))
     files.append("Cargo.lock")
     h = hashlib.sha256()
     for f in sorted(set(files)):
